@@ -268,10 +268,20 @@ static rc::Gen<std::vector<Op>> gen_phrase(const Weights &w, int nmods, const st
         auto rest = gens::weighted<std::vector<Op>>({{35, single}, {10, deliver}, {4, pubdeliver}, {2, burst}, {4, loopcycle}, {40, become_cycle}, {4, stash_cycle}, {1, batch}, {1, fdcycle}});
         return gens::weighted<std::vector<Op>>({{95, rest}, {5, tbbecome}});
     }
+    // the batching settings of a module change while it holds accumulated events and is not RUNNING (nothing may be handed over then)
+    auto batchpause = gen::map(gen::tuple(slot, slot, gens::weighted_values<long>({{2, 3}, {1, 4}, {1, 5}}), gens::range<long>(1, 3), gens::weighted_values<long>({{2, 1}, {2, 2}, {1, 0}}), gens::range<long>(0, 3)), [](std::tuple<int, int, long, long, long, long> t) {
+        int s = std::get<0>(t), f = std::get<1>(t);
+        std::vector<Op> v{mkop(P::O_BATCH_SIZE, s, 0, std::get<2>(t))};
+        for (long i = 0; i < std::get<3>(t); i++) v.push_back(mkop(P::O_TELL, f, s));
+        v.push_back(mkop(P::O_DISPATCH, 0, 0, std::get<3>(t)));
+        v.push_back(mkop(P::O_PAUSE, s)); v.push_back(mkop(P::O_BATCH_SIZE, s, 0, std::get<4>(t)));
+        if (std::get<5>(t) == 0) v.push_back(mkop(P::O_BATCH_TIMEOUT, s, 0, 2));
+        v.push_back(mkop(P::O_RESUME, s)); v.push_back(mkop(P::O_TELL, f, s)); v.push_back(mkop(P::O_DISPATCH, 0, 0, 2));
+        return v; });
     if (prop == "C19" || prop == "C01") {
         std::vector<size_t> ws = prop == "C19" ? std::vector<size_t>{55, 6, 14, 2, 14, 1, 0, 1, 0, 1} : std::vector<size_t>{70, 8, 6, 1, 8, 2, 1, 1, 0, 1};
         auto rest = gens::weighted<std::vector<Op>>({{ws[0], single}, {ws[1], deliver}, {ws[2], pubdeliver}, {ws[3], burst}, {ws[4], loopcycle}, {ws[5], become_cycle}, {ws[6], stash_cycle}, {ws[7], batch}, {ws[9], fdcycle}});
-        return prop == "C19" ? gens::weighted<std::vector<Op>>({{88, rest}, {5, tickcycle}, {2, tickeval}, {5, pausedsub}}) : gens::weighted<std::vector<Op>>({{91, rest}, {1, tickcycle}, {4, tickeval}, {4, pillbatch}});
+        return prop == "C19" ? gens::weighted<std::vector<Op>>({{88, rest}, {5, tickcycle}, {2, tickeval}, {5, pausedsub}}) : gens::weighted<std::vector<Op>>({{88, rest}, {1, tickcycle}, {4, tickeval}, {4, pillbatch}, {3, batchpause}});
     }
     // batching settings must not survive a stop: timeout (and size) configured, module stopped and started again, plain traffic afterwards
     auto batchrestart = gen::map(gen::tuple(slot, slot, gens::weighted_values<long>({{2, 2}, {1, 5}}), gens::weighted_values<long>({{2, 0}, {1, 2}, {1, 3}}), gens::range<long>(0, 3), gens::range<long>(1, 4)), [](std::tuple<int, int, long, long, long, long> t) {
@@ -286,7 +296,7 @@ static rc::Gen<std::vector<Op>> gen_phrase(const Weights &w, int nmods, const st
         return v; });
     if (prop == "C13") {
         auto rest = gens::weighted<std::vector<Op>>({{35, single}, {8, deliver}, {20, pubdeliver}, {8, burst}, {4, loopcycle}, {1, become_cycle}, {1, stash_cycle}, {20, batch}, {8, fdcycle}});
-        return gens::weighted<std::vector<Op>>({{94, rest}, {6, batchrestart}});
+        return gens::weighted<std::vector<Op>>({{90, rest}, {6, batchrestart}, {4, batchpause}});
     }
     // a one-shot (or periodic) timer expires behind other ready sources of the same poll batch, whose handlers may take its module out of RUNNING and back
     auto tmrbatch = gen::map(gen::tuple(slot, slot, slot, gens::range<long>(0, 3), gens::weighted_values<long>({{3, 4}, {2, 7}, {1, 0}, {1, 5}}), gens::range<long>(0, 4), gens::weighted_values<long>({{2, 4}, {1, 8}}), gens::range<long>(1, 4)),
